@@ -20,6 +20,11 @@ CLAIMS = {
   note="Assumes reflect behaves as documented (trusted contracts for ValueOf/Type/NumIn/In/IsVariadic/AssignableTo/Zero/Call). The behaviour of the allow-listed provider methods on hostile arguments is not covered. One genuine defect (null or mistyped argument panics in reflect.Call) was found by the Call preconditions and repaired (fix commit in /repo).",
   technique="contract-based deductive verification: WP over go/ssa, call-site preconditions on reflect calls, map-iteration invariant with ghost visited set, structural confinement scans",
   design="§5 C12"),
+ "C20": dict(
+  text="Deductive proof, for every operation history and interleaving that goes through LRUCache.mu, of the representation invariant wf (index and recency list hold the same entries; every list element is an *Entry filed under its own key; no foreign values; entry count == list length <= capacity) as a monitor invariant re-established at every Unlock of Get/Set/SetWithTags/Delete/Clear, with operation contracts: Get returns exactly the value filed under the key and moves it to the front; Set stores the value at the front, leaves other keys' entries untouched and evicts only a suffix of the recency order (LRU first); Delete/Clear remove; removeElement/evictOldest proved against sequence-shift contracts; the eviction loops carry a decreasing variant (termination) and every access to guarded fields happens with the lock held.",
+  note="container/list is trusted as an abstract sequence (ghost heaps); onEvict assumed not to touch the cache; the byte-size bound (currentSize <= maxSize) is NOT proved (needs an inductive sum; the in-place update path is observed to exceed it); DeleteByTag, the cleanup ticker and HTTPCache are not under contract. One genuine defect (Set never returns for capacity 0 / oversize value) was found by the decreases obligation and repaired.",
+  technique="contract-based deductive verification: monitor invariant on the mutex, ghost sequence model of container/list, loop variants, WP over go/ssa, z3/cvc5",
+  design="§5 C20"),
 }
 
 def main():
